@@ -216,6 +216,12 @@ def corpus():
         hand(["(a (gen 42 (tvar T)) -)"], ["(a (I 43 1 (v i1)))"], params=["T"]),
         hand(["(a (gen 42 (tvar T)) -)"], ["(a (I 49 1 (v i1)))"], params=["T"]),
         hand(["(a (seq (tvar T)) -)", "(b (opt self) N)"], ['(a (L s"x" i1))'], params=["T"], tp=["(T (cls 5))"]),
+        # a generic subclass of a generic state, specialised after its base was: a class of its own, with its own attributes
+        hand(["(a (cls 55) -)"], ["(a (I 55 1 (v i1) (w i2)))"]),
+        hand(["(a (gen 54 (cls 3)) -)"], ["(a (I 55 1 (v i1) (w i2)))"]),
+        hand(["(a (cls 55) -)"], ["(a (I 43 1 (v i1)))"]),
+        hand(["(a (cls 43) -)"], ["(a (I 55 1 (v i1) (w i2)))"]),
+        hand(["(a (gen 54 (tvar T)) -)"], ["(a (I 55 1 (v i1) (w i2)))"], params=["T"], tp=["(T (cls 3))"]),
         # a generic state with TWO parameters specialised inside a generic class: both written as variables, one as a variable
         hand(["(a (gen 46 (tvar T) (cls 5)) -)"], ['(a (I 47 1 (a i1) (b s"x")))'], params=["T"], tp=["(T (cls 3))"]),
         hand(["(a (gen 46 (tvar T) (cls 5)) -)"], ["(a (I 43 1 (v i1)))"], params=["T"], tp=["(T (cls 3))"]),
@@ -241,6 +247,10 @@ def generate(rng, tier):
 
 
 def run_real(case: str) -> str:
+    from harness.state_common import universe, universe_defects
+    defects = universe_defects(universe())
+    if defects:
+        return "universe-broken " + " ".join(defects)     # the library no longer builds the fixed classes as they are defined
     top = parse_seq(case)
     ctx = Ctx(top)
     try:
@@ -286,6 +296,9 @@ def monitor(case: str, out: str) -> list[str]:
         exp = expectation(case)
     except Exception as exc:  # noqa: BLE001
         return [f"validate.oracle-error.{type(exc).__name__}"]
+    if out.startswith("universe-broken"):
+        # the nested / generic State classes every case builds on are not what their definitions say
+        return ["validate.fixed-classes-broken:" + out.split(" ", 1)[1].split(" ")[0].split(":")[0]]
     if out.startswith("ok"):
         if not all(ok for _, _, ok, _ in exp):
             return ["validate.accepted-nonconforming"]
